@@ -757,6 +757,101 @@ def oracle_proxy(t, o):
     return None
 
 # ------------------------------------------------------------------------------------------------------
+# ------------------------------------------------------------------ ICE-TCP frames read through the component's GSource (agent.c:4938-5004)
+def gen_iostream(rng, i):
+    """Reliable agents over ICE-TCP (RFC 4571 frames on a real loopback TCP connection, harness/data_h.c); agent 1's application reads through
+    nice_agent_get_io_stream(): every dispatch of the pollable source does ONE read of at most cap bytes.  Agent 0 writes bursts of frames back to
+    back, so that one kernel read brings several frames and its last byte is the last byte of a frame."""
+    import C02
+    bs = rng.randrange(2)
+    # packetised mode (bytestream-tcp FALSE) documents that a read smaller than the packet drops the rest of it: the reader's buffer then holds any frame
+    cap = rng.choice([1, 7, 100, 1284, 4096, 65536, 65536, 70000]) if bs else rng.choice([4000, 4096, 65536, 65536, 70000])
+    ops = ["C1;0", "I1;%d" % cap, "P"]
+    sent = []
+    ctr = rng.randrange(1, 200)
+    for _ in range(rng.randrange(1, 5)):
+        burst = []
+        for _ in range(rng.choice([1, 2, 3, 5, 10])):
+            n = rng.choice([1, 2, 3, 20, 100, 576, 1284, 1284, 4000])
+            ctr += 1
+            burst.append((n, ctr))
+        if rng.random() < 0.5:
+            ops.append("S0;" + "|".join("%d;g%d" % (n, sd) for n, sd in burst)); sent.append(burst)
+        else:
+            for n, sd in burst:
+                ops.append("S0;%d;g%d" % (n, sd)); sent.append([(n, sd)])
+        if rng.random() < 0.3:
+            ops.append("K1;" + ".".join(str(rng.choice([1, 2, 3, 100, 1286, 2572, 5000])) for _ in range(rng.randrange(1, 6))))
+        ops += ["P", "T20", "P"]
+    ops += ["T200", "P", "P", "R1"]
+    return "io%d r1b%dk0s%d %s" % (i, bs, rng.randrange(1, 1 << 30), " ".join(ops)), sent
+
+
+def oracle_iostream(line, out, sent):
+    import C02
+    toks = out.split()
+    if "READY" not in toks:
+        return None
+    rets = [t for t in toks if t[0] == "s" and t[1:].lstrip("-").isdigit()]
+    if len(rets) != len(sent) or any(int(r[1:]) != len(b) for r, b in zip(rets, sent)):
+        return None      # a send was refused or partial: not this stage's subject
+    want = b"".join(C02.gen_bytes(n, sd, "g") for b in sent for n, sd in b)
+    got = b"".join(bytes.fromhex(t[3:]) for t in toks if t.startswith("m1:") and t[3] not in "-!")
+    if any(t.startswith("m1:!") for t in toks):
+        return "read through the component's input stream failed :: %s" % [t for t in toks if t.startswith("m1:!")][0]
+    rs = [t for t in toks if t.startswith("R1:")]
+    if got != want:
+        if want.startswith(got):
+            st = rs[-1] if rs else "?"
+            return ("%d of %d bytes written by the peer were never handed to the reader of the component's input stream although the connection is idle "
+                    "(reassembly state wakeup:frame_size:headroom:consumed = %s): a complete frame is left in the RFC 4571 buffer and nothing wakes the source"
+                    % (len(want) - len(got), len(want), st[3:]))
+        return "the reader of the component's input stream received other bytes than the peer wrote (%d bytes, %d written)" % (len(got), len(want))
+    if rs:
+        w, fs, h, cs = map(int, rs[-1][3:].split(":"))
+        if fs != 0 and fs <= h:
+            return "idle connection, yet a complete frame (%d bytes of %d buffered) sits in the RFC 4571 reassembly buffer (wakeup_needed=%d)" % (fs, h, w)
+    return None
+
+
+def iostream_stage(chk):
+    import C02
+    impl, o = C02.build_impl()
+    if not impl:
+        chk.broken_obligation("impl-build-data_h", o[-3000:]); return
+    rng = chk.sub_rng("iostream")
+    n = 48 if chk.tier == "quick" else 2000
+    cases = [gen_iostream(rng, i) for i in range(n)]
+    lines = [c[0] + "\n" for c in cases]
+    nv = notready = 0
+    for lo in range(0, len(lines), 256):
+        part = lines[lo:lo + 256]
+        outs, errs = vlib.run_sharded(impl, part, nshards=min(len(part), 64), timeout=600)
+        for idx, rc, se in errs:
+            nv += 1
+            if nv <= 3:
+                chk.violation({"kind": "impl-crash", "what": "iostream-C17", "case": cases[lo + idx][0], "rc": rc, "stderr": se[-3000:]},
+                              "iostream-C17: implementation crashed or sanitizer report (rc=%s) on case: %s\n%s" % (rc, cases[lo + idx][0][:300], se[-1500:]))
+        for k, out in enumerate(outs):
+            line, sent = cases[lo + k]
+            if out is None:
+                continue
+            if " NOTREADY" in out:
+                notready += 1
+            why = oracle_iostream(line, out, sent)
+            chk.count_case(line, " m1:" in out, "iostream")
+            if why:
+                nv += 1
+                if nv <= 3:
+                    chk.violation({"kind": "oracle", "what": "iostream-C17", "case": line, "impl": out[:4000], "why": why},
+                                  "iostream-C17: %s\n case: %s" % (why, line[:400]))
+            if lo + k < 2:
+                chk.sample({"case": line[:300], "impl": out[:300]})
+    chk.cov["correspondence"]["iostream-C17"] = {"cases": len(cases), "not_ready": notready, "violations": nv}
+    if notready * 4 > len(cases):
+        chk.broken_obligation("harness:iostream-C17", "%d of %d cases did not reach READY over loopback TCP" % (notready, len(cases)))
+
+
 def gen_cases(rng, tier):
     C = Counter()
     gen_queue(rng, C, tier)
@@ -778,7 +873,15 @@ def nontrivial(line, out):
     return out is not None and any(x in out for x in (" R1:", " D", " K", " S1"))
 
 
+def pregen():
+    import tabgen
+    return tabgen.rfc4571_wake_shape()
+
+
 def run(chk):
+    gi, err = pregen()
+    if gi is None:
+        chk.broken_obligation("translator/table-extractor", err)
     chk.prove(["Props/Properties_C17.v"], ["Stream/Extract_Stream.vo"])
     model, o = vlib.ocaml_build("stream_model", "stream_model", DRIVER)
     if not model:
@@ -793,6 +896,7 @@ def run(chk):
                             max_report=5, timeout=1500)
         else:
             vlib.correspond(chk, cases, impl, impl, oracle=oracle, what="stream-layers-oracle-only", max_report=5, timeout=1500)
+    iostream_stage(chk)
     return chk.finish(**FINISH)
 
 
